@@ -137,8 +137,7 @@ def judge_call(case, impl, model):
     if claimed and (out.startswith('ESC') or out.startswith('BIND') or out == 'RET:other'):
         pfail = f'{impl["out"]} reached the caller of a keyword call that Python accepts for the undecorated function - {C.describe_case(case)}'
     finding = None
-    if pfail and corr and ('untruthful' in model['regions'] or 'clazzFails' in model['regions']):
-        finding = 'bodyMentionsStaticmethodEscapes'
+    # (former region bodyMentionsStaticmethodEscapes: repaired by e6a11f4)
     return {'corr': corr, 'pfail': pfail, 'finding': finding, 'nontrivial': bool(claimed),
             'tag': f"call/{case['x']['kind']}/{case['x']['flavour']}/{out}", 'why': why}
 
